@@ -59,6 +59,19 @@ def run(prop, tier, seed):
             if not res["ok"]:
                 verdict.violation(f"design check {cfgfile}: {res['violation']}",
                                   dict(kind="tlc-mc", config=cfgfile, module=name + ".tla", output_tail=res["raw"][-6000:]))
+    if prop == "C15":
+        # the connection task's end-of-life protocol (spec/ConnTask.tla), the code as it is: everything but the
+        # delivery of a queued Shutdown must hold; that clause is the known finding, re-observed in the model
+        for (cfgfile, expect_ok) in (("MC_ConnTask_asis_rest.cfg", True), ("MC_ConnTask_asis.cfg", False), ("MC_ConnTask.cfg", True)):
+            res = vlib.tlc_mc("ConnTask.tla", cfgfile, workers=4, timeout=900)
+            cov["states"] += res["distinct"]
+            cov["transitions"] += res["generated"]
+            cov["mc"].append(dict(config=cfgfile, distinct=res["distinct"], generated=res["generated"], depth=res["depth"],
+                                  wall_s=res["wall_s"], complete=res["left"] == 0, ok=res["ok"]))
+            if cfgfile == "MC_ConnTask_asis.cfg" and not res["ok"]:
+                verdict.violation(f"ConnTask.tla as-is: {res['violation']}", dict(kind="tlc-mc", config=cfgfile, module="ConnTask.tla", output_tail=res["raw"][-3000:]))
+            elif cfgfile == "MC_ConnTask_asis_rest.cfg" and not res["ok"]:
+                verdict.violation(f"ConnTask.tla design check {cfgfile}: {res['violation']}", dict(kind="tlc-mc", config=cfgfile, module="ConnTask.tla", output_tail=res["raw"][-3000:]))
     batches = cfg["batches"] if prop != "C15" else [("sweep", SWEEP[tier]["programs"], SWEEP[tier]["points"])]
     if prop == "C19":
         batches = BATCHES_C19[tier]
@@ -134,7 +147,7 @@ def run(prop, tier, seed):
                             "(battery role) whose operations are started after the cause; distinct = distinct sequences of (role, operation, result)")
         coverage["causes_triggered"] = cov.get("triggered", 0)
         coverage["victim_transport_ops_per_program"] = cov.get("victim_ops", [])
-    level = "model_checking" if cov["states"] else ("fault_enumeration" if prop == "C15" else "exploration")
+    level = "fault_enumeration" if prop == "C15" else ("model_checking" if cov["states"] else "exploration")
     vlib.write_evidence(prop, tier, seed, level, coverage, time.time() - t0, verdict.violations,
                         assumptions=["programs and schedules are sampled, not exhaustive", "single-threaded executor: no data races are explored",
                                      "HashMap iteration order inside broker and client is not controlled by the seed"])
